@@ -239,7 +239,13 @@ func hintsMain(x *X) {
 	if full.Err != "" {
 		return
 	}
-	if d := Compare(trimmed.Res, full.Res, 0); d.Kind != "" {
+	// timestamps and label sets exactly; values up to summation order (the two runs have different
+	// callback sequences, hence different schedules and shard arrival orders)
+	if d := Compare(trimmed.Res, full.Res, Tol); d.Kind != "" {
+		if d.Kind == "value" && orderSensitive(bop, c.Data, RefQuery(bop, c.Data, bop.Eng.LookbackMs).Res) {
+			x.R.Skipped = "order-sensitive"
+			return
+		}
 		x.Viol("C16", "hinted-range", "trim-"+d.Kind+"|"+shape+"|"+windowClass(op), fmt.Sprintf("%s [%d..%d step %d] (optimizers %s): result changes when the storage omits samples outside the hinted range: %s", op.Q, op.Start, op.End, op.Step, optim, d.Detail))
 	}
 }
